@@ -332,6 +332,16 @@ def _rename_locals(src: str) -> tuple[str, int]:
                     t = stack.pop()
                     nested_uses |= set(t.get_identifiers())
                     stack += t.get_children()
+            # symtable no longer lists comprehensions as child scopes from Python 3.12 on (PEP 709): collect the names used inside nested
+            # functions, lambdas and comprehensions from the syntax tree as well (the first iterable of a comprehension belongs to the enclosing scope)
+            for sub in ast.walk(node):
+                if sub is node:
+                    continue
+                if isinstance(sub, (ast.FunctionDef, ast.AsyncFunctionDef, ast.Lambda, ast.ClassDef)):
+                    nested_uses |= {x.id for x in ast.walk(sub) if isinstance(x, ast.Name)}
+                elif isinstance(sub, (ast.ListComp, ast.SetComp, ast.DictComp, ast.GeneratorExp)):
+                    first_iter = {id(x) for x in ast.walk(sub.generators[0].iter)}
+                    nested_uses |= {x.id for x in ast.walk(sub) if isinstance(x, ast.Name) and id(x) not in first_iter}
             names = set()
             for s in tab.get_symbols():
                 if s.is_local() and s.is_assigned() and not s.is_parameter() and not s.is_global() and not s.is_nonlocal() \
